@@ -695,11 +695,107 @@ func builtinModels() map[string]modelFn {
 				default:
 					e.unsupported(st, "reflect.Kind of "+iv.typ.String())
 				}
+			case *types.Array:
+				kind = 17
+			case *types.Chan:
+				kind = 18
+			case *types.Signature:
+				kind = 19
+			case *types.Map:
+				kind = 21
+			case *types.Slice:
+				kind = 23
+			case *types.Struct:
+				kind = 25
 			default:
+				// pointers and interfaces would need Elem(): not modelled
 				e.unsupported(st, "reflect.Kind of "+iv.typ.String())
 			}
 		}
 		e.finish(st, c, e.ctx.BV(64, kind))
+	}
+
+	// more of reflect.Value on values built by the ValueOf model (slices, strings, basic kinds)
+	reflIface := func(e *Engine, st *State, c *callCtx, what string) (IfaceVal, bool) {
+		rv, ok := c.args[0].(AggVal)
+		if ok {
+			if iv, ok2 := rv.slots[0].(IfaceVal); ok2 {
+				return iv, true
+			}
+		}
+		e.unsupported(st, "reflect.Value."+what+" on a value not built by the reflect.ValueOf model")
+		return IfaceVal{}, false
+	}
+	m["(reflect.Value).IsValid"] = func(e *Engine, st *State, c *callCtx) {
+		iv, _ := reflIface(e, st, c, "IsValid")
+		e.finish(st, c, e.ctx.Bool(iv.typ != nil))
+	}
+	m["(reflect.Value).Len"] = func(e *Engine, st *State, c *callCtx) {
+		iv, _ := reflIface(e, st, c, "Len")
+		switch x := iv.v.(type) {
+		case SliceVal:
+			e.finish(st, c, e.intVal(x.len))
+		case StrVal:
+			e.finish(st, c, e.intVal(x.len))
+		case MapVal:
+			n := 0
+			if x.obj != 0 {
+				n = len(e.obj(st, x.obj).entries)
+			}
+			e.finish(st, c, e.intVal(n))
+		default:
+			e.goPanic(st, "reflect: call of reflect.Value.Len on a value that has no length")
+		}
+	}
+	m["(reflect.Value).CanInterface"] = func(e *Engine, st *State, c *callCtx) {
+		iv, _ := reflIface(e, st, c, "CanInterface")
+		if iv.typ == nil {
+			e.goPanic(st, "reflect: call of reflect.Value.CanInterface on zero Value")
+		}
+		e.finish(st, c, e.ctx.True)
+	}
+	m["(reflect.Value).Interface"] = func(e *Engine, st *State, c *callCtx) {
+		iv, _ := reflIface(e, st, c, "Interface")
+		if iv.typ == nil {
+			e.goPanic(st, "reflect: call of reflect.Value.Interface on zero Value")
+		}
+		e.finish(st, c, iv)
+	}
+	m["(reflect.Value).String"] = func(e *Engine, st *State, c *callCtx) {
+		iv, _ := reflIface(e, st, c, "String")
+		if sv, ok := iv.v.(StrVal); ok {
+			e.finish(st, c, sv)
+			return
+		}
+		e.unsupported(st, "reflect.Value.String on a non-string kind")
+	}
+	m["(reflect.Value).IsNil"] = func(e *Engine, st *State, c *callCtx) {
+		iv, _ := reflIface(e, st, c, "IsNil")
+		switch x := iv.v.(type) {
+		case SliceVal:
+			e.finish(st, c, e.ctx.Bool(x.obj == 0))
+		case MapVal:
+			e.finish(st, c, e.ctx.Bool(x.obj == 0))
+		case PtrVal:
+			e.finish(st, c, e.ctx.Bool(x.obj == 0))
+		default:
+			e.unsupported(st, "reflect.Value.IsNil on this kind")
+		}
+	}
+	m["(reflect.Value).IsZero"] = func(e *Engine, st *State, c *callCtx) {
+		iv, _ := reflIface(e, st, c, "IsZero")
+		switch x := iv.v.(type) {
+		case SliceVal:
+			e.finish(st, c, e.ctx.Bool(x.obj == 0))
+		case MapVal:
+			e.finish(st, c, e.ctx.Bool(x.obj == 0))
+		case StrVal:
+			e.finish(st, c, e.ctx.Bool(x.len == 0))
+		case *Term:
+			e.finish(st, c, e.ctx.Eq(x, e.ctx.BV(x.w, 0)))
+		default:
+			e.unsupported(st, "reflect.Value.IsZero on this kind")
+		}
 	}
 
 	registerIntrinsics(m)
@@ -720,6 +816,11 @@ func hlogFatal(e *Engine, st *State, c *callCtx) {
 func (e *Engine) findModel(name string) (modelFn, bool) {
 	if m, ok := e.models[name]; ok {
 		return m, true
+	}
+	// reflect.Value has a model-specific representation: a method without a model must not run
+	// from SSA against it
+	if strings.HasPrefix(name, "(reflect.Value).") || strings.HasPrefix(name, "(*reflect.Value).") {
+		return func(e *Engine, st *State, c *callCtx) { e.unsupported(st, "no model for "+name) }, true
 	}
 	for _, p := range modelPrefixes {
 		if strings.HasPrefix(name, p) {
